@@ -159,6 +159,13 @@ inductive Ret where
   | err (e : EK)
   deriving Repr
 
+/-- The clock answers a `u128` number of milliseconds (`Duration::as_millis`). -/
+def timeMax : Nat := 340282366920938463463374607431768211455
+
+theorem timeMax_eq : timeMax = 340282366920938463463374607431768211455 := rfl
+
+attribute [irreducible] timeMax
+
 /-- Environment parameters the model does not decide. -/
 structure Env where
   reflinkOK : Bool := false       -- does the filesystem support reflink (ext4 here: no)
@@ -287,7 +294,7 @@ def exec (env : Env) (fs : FS) : Call → FS × Ret
     | some (.link _) => (fs.del p, .unit)
     | some (.file _) => (fs, .err .other)
     | none => (fs, .err .notFound)
-  | .now => (fs, .nat env.clock)
+  | .now => (fs, .nat (env.clock % (timeMax + 1)))
 
 /-- Does the call change the filesystem at all (used by C15 "reads do not mutate")? -/
 def Call.mutating : Call → Bool
